@@ -44,7 +44,20 @@ import (
 
 var c18Opts = core.Opts{ID: "C18", Quick: 300, Thorough: 12000}
 
-var c18Strings = []string{"", "plain", "with \"quotes\" and \\backslash", "<script>&amp;</script>", "مرحبا بالعالم", "日本語テキスト", "emoji 😀🚀 astral 𝔘𝔫𝔦", "line\nbreak\ttab", "nul\u0001ctl", strings.Repeat("long-", 800), "ünïcödé", "a/b?c=d#e"}
+var c18Strings = []string{"", "plain", "with \"quotes\" and \\backslash", "<script>&amp;</script>", "مرحبا بالعالم", "日本語テキスト", "emoji 😀🚀 astral 𝔘𝔫𝔦", "line\nbreak\ttab", "nul\u0001ctl", strings.Repeat("long-", 800), "ünïcödé", "a/b?c=d#e", "100% of %s and %d, Main%20Page", "ends with a percent sign %"}
+
+// c18Open loads the state file the way the router does: the constructor loads
+// it, then the module group starts the module (and stops it at shutdown).
+func c18Open(path string) (*storage.JSONFileStorage, error) {
+	s, err := storage.NewJSONFileStorage(path)
+	if err != nil {
+		return nil, err
+	}
+	if err := storage.Storage(s).Start(); err != nil {
+		return nil, fmt.Errorf("start of the storage module: %w", err)
+	}
+	return s, nil
+}
 
 func c18Str(c *core.Case, label string) string {
 	if c.Chance(label+".rand", 1, 4) {
@@ -231,7 +244,7 @@ func TestC18RoundTrip(t *testing.T) {
 			maxR, maxM = 200, 200
 		}
 		sp := c18GenSpec(c, maxR, maxM)
-		s, err := storage.NewJSONFileStorage(path)
+		s, err := c18Open(path)
 		if err != nil {
 			c.Fatalf("new storage: %v", err)
 		}
@@ -245,7 +258,7 @@ func TestC18RoundTrip(t *testing.T) {
 		if err := s.Stop(); err != nil {
 			c.Fatalf("Stop failed: %v", err)
 		}
-		re, err := storage.NewJSONFileStorage(path)
+		re, err := c18Open(path)
 		if err != nil {
 			c.Fatalf("reload of a state written by Stop failed: %v", err)
 		}
@@ -260,7 +273,7 @@ func TestC18RoundTrip(t *testing.T) {
 		if err := re.Stop(); err != nil {
 			c.Fatalf("second Stop failed: %v", err)
 		}
-		re2, err := storage.NewJSONFileStorage(path)
+		re2, err := c18Open(path)
 		if err != nil {
 			c.Fatalf("second reload failed: %v", err)
 		}
@@ -340,7 +353,7 @@ func TestC18Child(t *testing.T) {
 	if err := json.Unmarshal(data, &job); err != nil {
 		t.Fatal(err)
 	}
-	s, err := storage.NewJSONFileStorage(job.Path)
+	s, err := c18Open(job.Path)
 	if err != nil {
 		t.Fatal(err)
 	}
@@ -672,7 +685,7 @@ func TestC18Crash(t *testing.T) {
 		hasOld := c.Chance("has.old", 5, 6)
 		oldCanon := ""
 		if hasOld {
-			s, err := storage.NewJSONFileStorage(path)
+			s, err := c18Open(path)
 			if err != nil {
 				c.Fatalf("storage: %v", err)
 			}
@@ -724,7 +737,7 @@ func TestC18Crash(t *testing.T) {
 			c.Fatalf("trace parse: %v", err)
 		}
 		// The new state, as the child left it.
-		finalS, err := storage.NewJSONFileStorage(path)
+		finalS, err := c18Open(path)
 		if err != nil {
 			c.Fatalf("state written by a complete Stop cannot be loaded: %v", err)
 		}
@@ -770,7 +783,7 @@ func TestC18Crash(t *testing.T) {
 			if err := c18Materialise(fs, stateDir, checkDir); err != nil {
 				c.Fatalf("materialise: %v", err)
 			}
-			s, err := storage.NewJSONFileStorage(filepath.Join(checkDir, "state.json"))
+			s, err := c18Open(filepath.Join(checkDir, "state.json"))
 			states++
 			if err != nil {
 				c.Fatalf("crash %s: the next start cannot load the state (%v); state file has %d bytes (old %d, new %d)", where, err, len(fs[path]), len(initial[path]), len(model[path]))
@@ -799,7 +812,7 @@ func TestC18Crash(t *testing.T) {
 				if err := s.Stop(); err != nil {
 					c.Fatalf("crash %s, next run: clean shutdown failed: %v", where, err)
 				}
-				s2, err := storage.NewJSONFileStorage(filepath.Join(checkDir, "state.json"))
+				s2, err := c18Open(filepath.Join(checkDir, "state.json"))
 				if err != nil {
 					c.Fatalf("crash %s, then a run that shut down cleanly with a smaller state: the start after that cannot load the state (%v)", where, err)
 				}
@@ -878,7 +891,7 @@ func TestC18WriteFault(t *testing.T) {
 		hasOld := c.Chance("has.old", 5, 6)
 		oldCanon := ""
 		if hasOld {
-			s, err := storage.NewJSONFileStorage(path)
+			s, err := c18Open(path)
 			if err != nil {
 				c.Fatalf("storage: %v", err)
 			}
@@ -897,7 +910,7 @@ func TestC18WriteFault(t *testing.T) {
 		if hasOld {
 			_ = os.WriteFile(cpy, oldData, 0o644)
 		}
-		sc, err := storage.NewJSONFileStorage(cpy)
+		sc, err := c18Open(cpy)
 		if err != nil {
 			c.Fatalf("storage: %v", err)
 		}
@@ -943,7 +956,7 @@ func TestC18WriteFault(t *testing.T) {
 			if i := strings.Index(string(out), "C18-STOP-RESULT"); i >= 0 {
 				stopRes = strings.SplitN(string(out)[i:], "\n", 2)[0]
 			}
-			s, err := storage.NewJSONFileStorage(path)
+			s, err := c18Open(path)
 			if err != nil {
 				c.Fatalf("write error at byte %d of %d during shutdown (%s): the next start cannot load the state: %v", limit, len(newData), stopRes, err)
 			}
